@@ -105,6 +105,8 @@ class Generator(SchemaVisitor[Any]):
         else:
             min_length = schema.props.min_len if (schema.props.min_len is not Nil) else STR_LEN_MIN
             max_length = schema.props.max_len if (schema.props.max_len is not Nil) else STR_LEN_MAX
+            if schema.props.max_len is Nil:
+                max_length = max(max_length, min_length)
             if schema.props.substr is not Nil:
                 min_length = max(min_length, len(schema.props.substr))
                 max_length = max(max_length, len(schema.props.substr))
